@@ -122,7 +122,7 @@ func c10Check(c c10Case) (viol string) {
 	return ""
 }
 
-var c10ValueAlphabet = []string{`"`, "a", "\n", "\r", "é", " ", `\`}
+var c10ValueAlphabet = []string{`"`, "a", "\n", "\r", "é", " ", `\`, "%", "\uFFFD"}
 
 type c10Args struct {
 	Space  string `json:"space"` // trees | values | groupby
@@ -274,13 +274,13 @@ func c10Run(ctx *rt.Ctx) []*rt.Violation {
 	} else {
 		add(c10Args{Space: "trees", Depth: 2, Arity: 3}, 16)
 		add(c10Args{Space: "trees", Depth: 3, Arity: 2, Leaves: 2}, 16) // deep nestings (NOT over single-operand nodes over ...) on two leaves
-		add(c10Args{Space: "values", Len: 4}, 2)
+		add(c10Args{Space: "values", Len: 4}, 8)
 	}
 	add(c10Args{Space: "groupby"}, 1)
 	add(c10Args{Space: "placeholders"}, 1)
 	outs := rt.RunJobs(ctx, jobs, rt.SpawnOpt{})
 	vs := rt.Collect(ctx, outs, nil)
-	ctx.Cov.Note("rule", "every tree of the stated depth/arity over 3 leaves (literal, placeholder, value with quote and newline; single-operand and directly nested same-operator nodes included), every value string up to the stated length over {quote, a, newline, carriage return, é, space, backslash} in three positions, every group-by list of length 0..3 over 3 identifiers on 3 trees, placeholder numbers {1,2,9,10,99,1000,2^31-2,2^31-1} in 4 tree shapes: parse(format(t)) must succeed and be equal to t after flattening/unwrapping, group-by equal, and format(parse(s1)) == s1 for s1 = format(parse(format(t))); non-trivial = trees with >=2 operators, all value and group-by cases")
+	ctx.Cov.Note("rule", "every tree of the stated depth/arity over 3 leaves (literal, placeholder, value with quote and newline; single-operand and directly nested same-operator nodes included), every value string up to the stated length over {quote, a, newline, carriage return, é, space, backslash, percent, U+FFFD} in three positions, every group-by list of length 0..3 over 3 identifiers on 3 trees, placeholder numbers {1,2,9,10,99,1000,2^31-2,2^31-1} in 4 tree shapes: parse(format(t)) must succeed and be equal to t after flattening/unwrapping, group-by equal, and format(parse(s1)) == s1 for s1 = format(parse(format(t))); non-trivial = trees with >=2 operators, all value and group-by cases")
 	ctx.Assumef("column names are valid identifiers and AND/OR nodes have >=1 operand (property precondition)")
 	return vs
 }
